@@ -1,6 +1,7 @@
 package main
 
 import (
+	"regexp"
 	"fmt"
 	"go/token"
 	"go/types"
@@ -223,6 +224,11 @@ func (s *State) binop(op token.Token, a, b Val, spec bool) Val {
 		}
 		wrap := func(t Term, mod bool) Val {
 			if spec {
+				return Scalar{t, x.Typ}
+			}
+			// a result that stays inside the type's range by known bounds (lengths, range counters,
+			// literals) needs no wrap-around term
+			if lo, hi, ok := s.boundOf(t.S, 0); ok && lo.Cmp(ii.min()) >= 0 && hi.Cmp(ii.max()) <= 0 {
 				return Scalar{t, x.Typ}
 			}
 			return Scalar{app(SInt, ii.wrapName(mod), t), x.Typ}
@@ -649,4 +655,55 @@ func balanced(x string) bool {
 		}
 	}
 	return d == 0
+}
+
+var lenSymRe = regexp.MustCompile(`\.(len|cap)![0-9]+\|$`)
+
+// boundOf: integer bounds of a term that follow from facts every path assumes (slice lengths and
+// capacities are in [0, 2^48], range counters in [-1, length]); used to elide wrap-around terms.
+func (s *State) boundOf(t string, depth int) (*big.Int, *big.Int, bool) {
+	if depth > 6 {
+		return nil, nil, false
+	}
+	if b, ok := s.bounds[t]; ok {
+		return b[0], b[1], true
+	}
+	if n, ok := new(big.Int).SetString(t, 10); ok {
+		return n, n, true
+	}
+	if strings.HasPrefix(t, "|") && lenSymRe.MatchString(t) {
+		return big.NewInt(0), pow2(maxLenBits), true
+	}
+	ch, ok := sexprChildren(t)
+	if !ok || len(ch) < 2 {
+		return nil, nil, false
+	}
+	switch ch[0] {
+	case "-":
+		if len(ch) == 2 {
+			lo, hi, ok := s.boundOf(ch[1], depth+1)
+			if !ok {
+				return nil, nil, false
+			}
+			return new(big.Int).Neg(hi), new(big.Int).Neg(lo), true
+		}
+		if len(ch) == 3 {
+			alo, ahi, ok1 := s.boundOf(ch[1], depth+1)
+			blo, bhi, ok2 := s.boundOf(ch[2], depth+1)
+			if ok1 && ok2 {
+				return new(big.Int).Sub(alo, bhi), new(big.Int).Sub(ahi, blo), true
+			}
+		}
+	case "+":
+		lo, hi := big.NewInt(0), big.NewInt(0)
+		for _, c := range ch[1:] {
+			clo, chi, ok := s.boundOf(c, depth+1)
+			if !ok {
+				return nil, nil, false
+			}
+			lo, hi = new(big.Int).Add(lo, clo), new(big.Int).Add(hi, chi)
+		}
+		return lo, hi, true
+	}
+	return nil, nil, false
 }
